@@ -32,10 +32,10 @@ def main(tier, replay=None):
     for kind, tree in (("plain", src), ("sanitised", asan)):
         for msgs in (("l1r1",) if tier == "quick" else ("l1r1", "l3", "r2")):
             vk_run(res, "daemon", tree, rd, "0,0,0,%d" % eb, eb, 1500, "qmail-send-report-channels-%s-%s" % (msgs, kind),
-                   opts=["monitors=C04,C03", "msgs=" + msgs, "signals=0", "verdicts=KZDghueOQkjzd", "reorder=2"] + (["concl=3"] if msgs == "l3" else []))
+                   opts=["monitors=C04,C03", "msgs=" + msgs, "signals=0", "verdicts=KZDghueOQkjzdmn", "reorder=2"] + (["concl=3"] if msgs == "l3" else []))
     res.rule += ("; qmail-send (real qmail-send/qmail-clean, the harness plays both spawners): while 1-3 deliveries are in flight every choice "
                  "of {success, deferral, failure, report numbered == concurrency, 255, a free slot, bare number+NUL, unknown status letter, "
-                 "12000-byte deferral, success/deferral/failure reports arriving in two pieces (cut after the number, after the status letter, inside the text)} for each of the 2 oldest deliveries, up to %d deviations from all-success, on the plain and the "
+                 "12000-byte deferral, success/deferral/failure reports arriving in two pieces (cut after the number, after the status letter, inside the text), a report cut after the status letter whose rest is overtaken by the next report of the other channel} for each of the 2 oldest deliveries, up to %d deviations from all-success, on the plain and the "
                  "sanitised build; oracle: stray reports change nothing (done-marks only after a matching verdict, every recipient still "
                  "attempted and resolved, no crash), mangled ones defer, oversized ones are truncated" % eb)
     res.rule += ("; spawners (real qmail-lspawn and qmail-rspawn, delivery programs are recording stand-ins): one command for every message id "
